@@ -19,6 +19,7 @@ pub mod scen_path;
 pub mod scen_term;
 pub mod scen_token;
 pub mod txobs;
+pub mod inflight;
 pub mod scen_zrtt2;
 pub mod scen_reset;
 pub mod ledger;
